@@ -233,16 +233,55 @@ def catalogue(tier):
     return fam_bounds(tier) + fam_stack(tier) + fam_slices(tier) + fam_misc(tier)
 
 
+def boundaries(s):
+    """char-boundary offsets of a UTF-8 byte string"""
+    return [i for i in range(len(s) + 1) if i == len(s) or (s[i] & 0xC0) != 0x80]
+
+
+def sub_inputs(strs, maxlen):
+    """every Span(s, a, b) and Position(s, a) of the given strings (char boundaries, a <= b)"""
+    out = []
+    for s in strs:
+        if len(s) > maxlen:
+            continue
+        bs = boundaries(s)
+        for i, a in enumerate(bs):
+            out.append(('pos', s, a, 0))
+            for b in bs[i:]:
+                out.append(('span', s, a, b))
+    return out
+
+
 def inputs_for(env, tier, forms=('str',)):
-    """input list of an environment: exhaustive small strings (+ extras); optionally sub-input forms"""
-    if getattr(env, 'family', '') == 'slices' and env.name != 'sl_ops':
+    """input list of an environment: exhaustive small strings (+ extras) as `&str`; with 'sub' in forms also
+    every Span / Position sub-input of the shorter ones (all `str` cases come first)"""
+    fam = getattr(env, 'family', '')
+    if fam == 'slices':
         base = slice_inputs(env, tier)
-        return base
-    if env.name == 'sl_ops':
-        return slice_inputs(env, tier)
-    strs = strings_upto(env.alpha, env.maxlen)
-    pre = getattr(env, 'prefix', b'')
-    out = [('str', pre + s, 0, 0) for s in strs]
-    for x in getattr(env, 'extra', []):
-        out.append(('str', x, 0, 0))
+        strs = [b for (_, b, _, _) in base]
+        sub_max = 4 if tier == 'quick' else 5
+        sub_src = [x for x in strs if len(x) <= sub_max][:: (7 if tier == 'quick' else 3)]
+    else:
+        strs = strings_upto(env.alpha, env.maxlen)
+        pre = getattr(env, 'prefix', b'')
+        strs = [pre + x for x in strs] + list(getattr(env, 'extra', []))
+        base = [('str', x, 0, 0) for x in strs]
+        if fam == 'misc':
+            sub_max = env.maxlen * 4
+            sub_src = strs
+        else:
+            sub_max = 3 + len(pre) if tier == 'quick' else 4 + len(pre)
+            sub_src = strs
+    out = list(base)
+    if 'sub' in forms:
+        subs = sub_inputs(sub_src, sub_max)
+        # make sure the slice of every sub-input is also run on its own (fresh string)
+        have = {x for (_, x, _, _) in base}
+        extra = []
+        for (form, x, a, b) in subs:
+            sl = x[a:b] if form == 'span' else x[a:]
+            if sl not in have:
+                have.add(sl)
+                extra.append(('str', sl, 0, 0))
+        out += extra + subs
     return out
